@@ -4,6 +4,7 @@ import (
 	"crypto/sha256"
 	"crypto/sha512"
 	"encoding/hex"
+	"math/big"
 	"testing"
 )
 
@@ -11,7 +12,10 @@ import (
 func TestXMDRFC9380(t *testing.T) {
 	// RFC 9380 appendix K.1 (SHA-256), K.3 (SHA-512)
 	dst := []byte("QUUX-V01-CS02-with-expander-SHA256-128")
-	for _, c := range []struct{ msg, want string; n int }{
+	for _, c := range []struct {
+		msg, want string
+		n         int
+	}{
 		{"", "68a985b87eb6b46952128911f2a4412bbc302a9d759667f87f7a21d803f07235", 0x20},
 		{"abc", "d8ccab23b5985ccea865c6c97b6e5b8350e794e603b4b97902f53a8a0d605615", 0x20},
 	} {
@@ -37,7 +41,10 @@ func TestHKDFRFC5869(t *testing.T) {
 
 func TestVarintRFC9000(t *testing.T) {
 	// RFC 9000 appendix A.1
-	for _, c := range []struct{ enc string; v uint64 }{
+	for _, c := range []struct {
+		enc string
+		v   uint64
+	}{
 		{"c2197c5eff14e88c", 151288809941952652}, {"9d7f3e7d", 494878333}, {"7bbd", 15293}, {"25", 37}, {"4025", 37},
 	} {
 		b, _ := hex.DecodeString(c.enc)
@@ -50,3 +57,37 @@ func TestVarintRFC9000(t *testing.T) {
 		t.Fatal("encode")
 	}
 }
+
+func TestEdModelRFC8032(t *testing.T) {
+	// base point encoding and RFC 8032 test 1 public key: A = [clamp(SHA512(seed)[:32])]B
+	if hex.EncodeToString(EdEncode(EdBase())) != "5866666666666666666666666666666666666666666666666666666666666666" {
+		t.Fatal("base point")
+	}
+	seed, _ := hex.DecodeString("9d61b19deffd5a60ba844af492ec2cc44449c5697b326919703bac031cae7f60")
+	h := sha512.Sum512(seed)
+	h[0] &= 248
+	h[31] &= 63
+	h[31] |= 64
+	a := EdScalarMult(leToInt(h[:32]), EdBase())
+	if hex.EncodeToString(EdEncode(a)) != "d75a980182b10ab7d54bfed3c964073a0ee172f3daa62325af021a68f707511a" {
+		t.Fatalf("rfc8032 test 1 public key: %x", EdEncode(a))
+	}
+	if p := EdScalarMult(EdL, EdBase()); p.X.Sign() != 0 || p.Y.Cmp(EdIdentity().Y) != 0 {
+		t.Fatal("[l]B != identity")
+	}
+	so := EdSmallOrderPoints()
+	if len(so) != 8 {
+		t.Fatal("small order points")
+	}
+	for _, p := range so {
+		if q := EdScalarMult(big8, p); q.X.Sign() != 0 || q.Y.Cmp(EdIdentity().Y) != 0 {
+			t.Fatal("small order point has order > 8")
+		}
+		d, ok := EdDecode(EdEncode(p))
+		if !ok || d.X.Cmp(p.X) != 0 || d.Y.Cmp(p.Y) != 0 {
+			t.Fatal("decode(encode(small-order point))")
+		}
+	}
+}
+
+var big8 = big.NewInt(8)
